@@ -186,7 +186,11 @@ def ok(o, inp, with_class=True):
         top = module_version(type(o)) or (vers[0] if vers and len(vers) == 1 else None)
         # the members of a Bundle are objects in their own right (each read by its own detected version, a 2.1 bundle may
         # hold 2.0 objects): the rule is about what an object EMBEDS (extensions, observables of observed-data, markings)
-        other = [] if o.get("type") == "bundle" else sorted(v for v in nested_versions(o) if top and v != top)
+        if o.get("type") == "bundle" and top == "2.1":
+            other = []
+        else:
+            # (a 2.0 bundle cannot hold objects of a later spec version: the library refuses them itself)
+            other = sorted(v for v in nested_versions(o) if top and v != top)
         if other:
             # an embedded object (extension, observable, marking, ...) of another spec version than the object holding it
             c = c + " +embedded objects of " + ",".join(other)
@@ -439,7 +443,7 @@ def run_entry(name, cfg, d):
         C = MemoryStore if name.startswith("memory.MemoryStore") else MemorySink
 
         def f():
-            s = C(**ck)
+            s = C(**ck, **({"version": cfg["ctor_version"]} if "ctor_version" in cfg else {}))
             if form == "positional":
                 s.add(payload(), v)
             else:
@@ -456,7 +460,7 @@ def run_entry(name, cfg, d):
             p = os.path.join(root, "in.json")
             with io.open(p, "w", encoding="utf-8") as fh:
                 json.dump(payload(), fh)
-            s = C(**ck)
+            s = C(**ck, **({"version": cfg["ctor_version"]} if "ctor_version" in cfg else {}))
             s.load_from_file(p, **vk)
             return single(s.get(oid), d)
         return guard(f, d), ["parse", own_allow(cfg, C.__init__), False]
